@@ -76,26 +76,35 @@ Definition accepted_somewhere (t : tool) (m : rmode) (n : nat) (es : list (nat *
   | _ => existsb (fun e => spec_accepted t (snd e)) es
   end.
 
-(* model: replay one body's requests as deliveries of the handler, [fails] = failed
-   deliveries so far: Some fin = consistent.  After max_attempts failed deliveries the
-   client library gives the message up (finished without a further request).
+(* model: replay one body's requests as deliveries of the handler: Some fin = consistent.
+   mode all: a delivery visits the destinations in order and stops at the first one that
+   does not accept; the next delivery starts again at destination 0.
    [lenient] (nsq_to_nsq runs in which a destination closed a connection): an OK that was
    written just before the close may be lost to the producer (its router may see the close
-   first and fail the transaction), so an accepted publish may be followed by a retry. *)
-Fixpoint walk (t : tool) (all lenient : bool) (n maxa : nat) (es : list (nat * answer)) (pos fails : nat) : option bool :=
+   first and fail the transaction), so an accepted publish may be followed by a retry.
+   [retry] (HTTP): net/http transparently re-sends an idempotent request (GET) whose reused
+   connection was closed before any response byte; the re-sent request goes to the SAME
+   destination within the same delivery.  (Messages given up by the client library are
+   handled separately from the tool's own log, see [a_givenup].) *)
+Fixpoint walk (t : tool) (all lenient : bool) (n : nat) (es : list (nat * answer)) (pos : nat) (retry : option nat)
+  : option bool :=
   match es with
-  | [] => Some (Nat.ltb 0 maxa && Nat.leb maxa fails)
+  | [] => Some false
   | (d, a) :: r =>
-      if all && negb (Nat.eqb d pos) then None
-      else if Nat.ltb 0 maxa && Nat.leb maxa fails then None      (* a request after the give-up *)
-      else if accepted t a then
-        if negb all || Nat.eqb (S pos) n then
-          match r with
-          | [] => Some true
-          | _ => if lenient then walk t all lenient n maxa r 0 (S fails) else None
-          end
-        else walk t all lenient n maxa r (S pos) fails
-      else walk t all lenient n maxa r 0 (S fails)
+      let p := if negb all || Nat.eqb d pos then Some pos
+               else match retry with Some q => if Nat.eqb d q then Some q else None | None => None end in
+      match p with
+      | None => None
+      | Some p =>
+          if accepted t a then
+            if negb all || Nat.eqb (S p) n then
+              match r with
+              | [] => Some true
+              | _ => if lenient then walk t all lenient n r 0 None else None
+              end
+            else walk t all lenient n r (S p) None
+          else walk t all lenient n r 0 (match a with AClose => Some p | _ => None end)
+      end
   end.
 
 Definition opt_bool_eqb (a : option bool) (b : bool) : bool :=
@@ -121,7 +130,7 @@ Definition judge_ack (c : ack_case) : N :=
         (* attempts exceeded max_attempts (failed deliveries need not all have reached a destination):
            finished by the library, never accepted *)
         Nat.ltb 0 (a_max_attempts c) && fin && negb (existsb (fun e => accepted t (snd e)) es)
-      else match walk t all lenient (a_ndest c) (a_max_attempts c) es 0 0 with
+      else match walk t all lenient (a_ndest c) es 0 None with
            | Some f => if f then fin
                        else if a_sampling c then true
                        else negb fin
